@@ -105,7 +105,7 @@ def run(ctx):
     env = vlib.go_env()
     env.update({"VERIF_SEED": str(ctx.seed), "VERIF_TIER": ctx.tier, "VERIF_OUT": ctx.work})
     rc, out = vlib.sh([vlib.GOBIN, "test", "-tags", "verif", "-overlay", ov, "-vet=off", "-count=1", "-run", "^TestVerifC19",
-                       "-timeout", "570s", "./actor/", "./internal/cluster/"], cwd=vlib.REPO, env=env, timeout=600)
+                       "-timeout", "1400s", "./actor/", "./internal/cluster/"], cwd=vlib.REPO, env=env, timeout=1500)
     rc_c, out_c = rc, out
     ctx.log("go harness done rc=%d" % rc)
     book_outs = read_jsonl(os.path.join(work, "c19_book_out.jsonl"))
@@ -264,9 +264,19 @@ def run(ctx):
                 if stale:
                     viol("claimClusterFire:stale-tick-claimed", "claim case %d: a tick %d s old was claimed with a TTL of %d s" % (cs["Id"], -op["RunSec"], cs["TTLs"]), {"case": cs, "result": res})
             items.append("((%d%%nat, %s), %s)" % (op["Ref"], z(op["RunSec"]), z(code)))
-        if (res.get("Keys") or []) != expect_keys:
-            viol("claimClusterFire:claim-key", "claim case %d: keys sent to the registry %s, expected reference@runTime of every non-stale tick %s" % (cs["Id"], (res.get("Keys") or [])[:4], expect_keys[:4]),
-                 {"case": cs, "result": res, "expected_keys": expect_keys})
+        # the registry key must be a function of (reference, run time), and an injective one (the literal
+        # format is the implementation's business)
+        keys = res.get("Keys") or []
+        ticks = [(op["Ref"], op["RunSec"]) for op in cs["Ops"] if not (-op["RunSec"] > cs["TTLs"])]
+        if len(keys) != len(ticks):
+            viol("claimClusterFire:claim-count", "claim case %d: %d claims reached the registry for %d non-stale ticks" % (cs["Id"], len(keys), len(ticks)), {"case": cs, "result": res})
+        else:
+            k_of, t_of = {}, {}
+            for tk, ky in zip(ticks, keys):
+                if k_of.setdefault(tk, ky) != ky or t_of.setdefault(ky, tk) != tk:
+                    viol("claimClusterFire:claim-key", "claim case %d: the claim key is not a one-to-one function of (reference, run time): tick %s -> %r, but %r is also used for tick %s / tick %s already had key %r" %
+                         (cs["Id"], tk, ky, ky, t_of.get(ky), tk, k_of.get(tk)), {"case": cs, "result": res})
+                    break
         if any(t != cs["TTLs"] * SEC for t in (res.get("TTLsNs") or [])):
             viol("claimClusterFire:claim-ttl", "claim case %d: TTLs sent to the registry %s" % (cs["Id"], res.get("TTLsNs")), {"case": cs, "result": res})
         coq_claims.append("(%s, %s)" % (z(cs["TTLs"]), coq_list(items)))
